@@ -439,7 +439,13 @@ func (s sysSpace) size() uint64 {
 // Negative entries are "churn" histories on capacity -c: 3c+300 distinct keys, i.e. more than 2c removals on a cache of more
 // than 1024 entries - the internal index is rebuilt at least once while the cache is that large (seeded C09o did the rebuild
 // in time slices and kept a stale half-built copy); they run under a clock that leaps.
-var fillCaps = []int{255, 256, 257, 511, 512, 513, 1023, 1025, 4096, 4097, 32768, 65535, 65536, 65537, 70000, 131073, -1030, -1100, -1030}
+var fillCaps = []int{255, 256, 257, 511, 512, 513, 1023, 1025, 4096, 4097, 32768, 65535, 65536, 65537, 70000, 131073, -1030, -1100, -1030,
+	capMaxInt, capMaxInt - 1, capMaxInt / 2, capMaxInt/2 + 1}
+
+// capacities at the limits of int (the "unbounded" idiom NewLRU(math.MaxInt) and its neighbours): 40 distinct keys, nothing may
+// be evicted (seeded C09x computed capacity+1 as an int). On a 32-bit worker capMaxInt is 1<<31 - 1. (Capacities around 1<<31 on a
+// 64-bit worker are left out: NewLRU pre-sizes its index with the capacity, which the runtime ignores only when it is absurd.)
+const capMaxInt = int(^uint(0) >> 1)
 
 func fillCases(tier string) int { return len(fillCaps) } // cheap enough for every run
 
@@ -459,6 +465,9 @@ func fillPlan(i int) *Plan {
 	n := c + c/8 + 3
 	if c > 1100 {
 		n = c + 3
+	}
+	if c > 1<<30 {
+		n = 40
 	}
 	clock := simsync.ClockMode(i % 4)
 	leap := false
